@@ -104,7 +104,18 @@ def main(argv=None) -> int:
 
         prop = load_property(pid)
         # import agilerl before forking so the 7 s import cost is paid once
-        import agilerl  # noqa: F401
+        # (deepspeed's import-time compiler probe writes noise to fd 2)
+        _fd = os.dup(2)
+        _dn = os.open(os.devnull, os.O_WRONLY)
+        os.dup2(_dn, 2)
+        try:
+            import agilerl  # noqa: F401
+            import agilerl.algorithms  # noqa: F401
+            import agilerl.hpo.mutation  # noqa: F401
+        finally:
+            os.dup2(_fd, 2)
+            os.close(_dn)
+            os.close(_fd)
     except Exception:
         traceback.print_exc()
         print(f"HARNESS-ERROR property={pid} cannot import harness or agilerl")
